@@ -255,8 +255,13 @@ class Runner:
             return
         pipe_as_node = any(p and b not in js for t, rows in nr["tables"] for (l, a, b, x, w, p) in rows)
         sig = {"fn": "create_nxgraph", "kind": "exception", "exception": type(e).__name__}
+        oos = {l for l, ins in nr["junctions"] if not ins}
         if pipe_as_node:
             sig.update({"column": "valve.element", "clause": "pipe_valve_adds_no_edge"})
+        elif kw.get("respect_status_junctions", True) and set(kw.get("nogojunctions") or []) & oos:
+            sig.update({"cause": "nogo_out_of_service"})
+        elif kw.get("respect_status_junctions", True) and kw.get("notravjunctions") and oos and isinstance(e, KeyError):
+            sig.update({"cause": "notrav_next_to_out_of_service"})
         self.ctx.violation(sig, "%s(%s) raised %r%s" % (fn, kw, e, " (the pipe label of a pi valve became a node, so the "
                            "junctions were not completed)" if pipe_as_node else ""), replay)
 
@@ -304,21 +309,34 @@ class Runner:
                                   what + " (kwargs %s)" % kw, replay)
 
     # ---- distances
-    def distance_case(self, spec, rng):
+    def distance_case(self, spec, rng, fixed=None):
         import pandapipes.topology as top
         ctx = self.ctx
         net = gen.build(spec)
         nr = net_rows(net)
-        kw = random_kwargs(rng, net, distance=True)
-        bad = set(kw.get("nogojunctions") or []) | set(kw.get("notravjunctions") or []) | \
-            {l for l, s in nr["junctions"] if not s}
-        cand = [l for l, _ in nr["junctions"] if l not in bad]
-        if not cand:
-            return
-        which = rng.choice(["single", "minimum", "multi"])
-        srcs = [rng.choice(cand)] if which == "single" else rng.sample(cand, min(len(cand), rng.choice([1, 2, 3])))
+        if fixed:
+            kw, which, srcs = fixed
+        else:
+            kw = random_kwargs(rng, net, distance=True)
+            bad = set(kw.get("nogojunctions") or []) | set(kw.get("notravjunctions") or []) | \
+                {l for l, s in nr["junctions"] if not s}
+            cand = [l for l, _ in nr["junctions"] if l not in bad]
+            if not cand:
+                return
+            which = rng.choice(["single", "minimum", "multi"])
+            srcs = [rng.choice(cand)] if which == "single" else rng.sample(cand, min(len(cand), rng.choice([1, 2, 3])))
         replay = {"spec": spec, "kwargs": kw, "kind": "distance", "fn": which, "sources": srcs}
         args = dict(notravjunctions=kw.get("notravjunctions"), nogojunctions=kw.get("nogojunctions"))
+        try:
+            top.create_nxgraph(net, **args)
+            mg = top.create_nxgraph(net, nogojunctions=kw.get("nogojunctions"))
+        except Exception as e:  # noqa: BLE001
+            ctx.count("distance_graph_raised_" + type(e).__name__)
+            self.cases.append({"net": nr, "kw": kw, "ignored": self.ignored, "raised": True, "edges": [], "nodes": [],
+                               "comps": [], "unsupplied": None, "dsrc": [], "dist": [], "replay": replay})
+            self.monitor_exception(nr, kw, e, replay, fn="calc_distance:" + which)
+            return
+        es, nodes, comps = graph_obs(mg)
         try:
             if which == "single":
                 d = top.calc_distance_to_junction(net, srcs[0], **args)
@@ -326,11 +344,11 @@ class Runner:
                 d = top.calc_minimum_distance_to_junctions(net, list(srcs), **args)
             else:
                 d = top.calc_distance_to_junctions(net, list(srcs), **args)
-            mg = top.create_nxgraph(net, nogojunctions=kw.get("nogojunctions"))
         except Exception as e:  # noqa: BLE001
-            ctx.count("distance_raised_" + type(e).__name__)
-            self.cases.append({"net": nr, "kw": kw, "ignored": self.ignored, "raised": True, "edges": [], "nodes": [],
-                               "comps": [], "unsupplied": None, "dsrc": [], "dist": [], "replay": replay})
+            # the graph exists but the search fails: a source junction is not a node of the graph
+            ctx.count("distance_search_raised_" + type(e).__name__)
+            self.cases.append({"net": nr, "kw": kw, "ignored": self.ignored, "edges": es, "nodes": nodes, "comps": comps,
+                               "unsupplied": None, "dsrc": [], "dist": [], "replay": replay})
             self.monitor_exception(nr, kw, e, replay, fn="calc_distance:" + which)
             return
         dist = []
@@ -340,7 +358,6 @@ class Runner:
                 ctx.violation({"fn": "calc_distance", "kind": "inexact"}, "distance %r is not a sum of the dyadic lengths" % x, replay)
                 return
             dist.append((int(v), int(xs)))
-        es, nodes, comps = graph_obs(mg)
         self.cases.append({"net": nr, "kw": {k: v for k, v in kw.items()}, "ignored": self.ignored, "edges": es, "nodes": nodes,
                            "comps": comps, "unsupplied": None, "dsrc": srcs, "dist": dist, "replay": replay})
         ctx.case({"distance": which, "sources": srcs, "kwargs": kw, "junctions": len(nr["junctions"])}, len(dist) > 1)
@@ -387,6 +404,7 @@ class Runner:
         pi = set(net.valve.index[net.valve.et == "pi"].tolist())
         g2.remove_edges_from([(u, v, k) for u, v, k in mg.edges(keys=True) if k[0] == "valve" and k[1] in pi])
         g2.remove_nodes_from([x for x in list(g2.nodes) if x not in set(net.junction.index.tolist())])
+        g2.add_nodes_from([x for x in net.junction.index.tolist() if x not in oos])       # what the code skips
         what = "junctions without pressure result %s != unsupplied_junctions + out of service %s" % (sorted(nan), sorted(graph))
         if (unsup(mg, s_all) | oos) == nan and s_all != s_code:
             cp = s_all - s_p
@@ -431,7 +449,7 @@ def run_correspondence(ctx, runner):
             bad.append((i * size + first, trip[1][2]))
     ctx.corr("C18.Model (edges, nodes, components, unsupplied, distances) == create_nxgraph / networkx / graph_searches",
              n_tot, n_mis, "every computed closure and relaxation was checked to be stable inside Coq")
-    part = {1: "edges", 2: "nodes", 3: "components", 4: "unsupplied", 5: "distances", 0: "?"}
+    part = {1: "edges", 2: "nodes", 3: "components", 4: "unsupplied", 5: "distances", 6: "whether the call raises", 0: "?"}
     for i, k in bad[:3]:
         c = cases[i]
         ctx.violation({"fn": "create_nxgraph" if k in (1, 2, 3) else "unsupplied_junctions" if k == 4 else "calc_distance",
@@ -469,6 +487,34 @@ WITNESS_T = {"fluid": "water", "ops": [
     ["create_sink", {"junction": 1, "mdot_kg_per_s": 0.1, "index": 0}]]}
 
 
+def zoo_spec():
+    """one in-service and one out-of-service row of every branch table (graph only, never solved), an
+    out-of-service ext grid as the only ext grid of its part, an out-of-service junction"""
+    ops = [["create_junction", {"pn_bar": 5.0, "tfluid_k": 293.15, "index": i, "in_service": i != 43}] for i in range(44)]
+    j = iter(range(44))
+
+    def two(fn, a, b, act, **kw):
+        for ins in (True, False):
+            d = {a: next(j), b: next(j), act: ins}
+            d.update(kw)
+            d["index"] = 3 if ins else 8
+            ops.append([fn, d])
+    two("create_pipe_from_parameters", "from_junction", "to_junction", "in_service", length_km=0.5, inner_diameter_mm=100., k_mm=0.1)
+    two("create_valve", "junction", "element", "opened", et="ju", inner_diameter_mm=80.)
+    two("create_pump", "from_junction", "to_junction", "in_service", std_type="P1")
+    two("create_compressor", "from_junction", "to_junction", "in_service", pressure_ratio=1.1)
+    two("create_pressure_control", "from_junction", "to_junction", "in_service", controlled_junction=0, controlled_p_bar=4.0,
+        check_controllability=False)
+    two("create_flow_control", "from_junction", "to_junction", "in_service", controlled_mdot_kg_per_s=0.1)
+    two("create_heat_exchanger", "from_junction", "to_junction", "in_service", qext_w=1000., inner_diameter_mm=80.)
+    two("create_heat_consumer", "from_junction", "to_junction", "in_service", controlled_mdot_kg_per_s=0.1, qext_w=1000.)
+    two("create_circ_pump_const_pressure", "return_junction", "flow_junction", "in_service", p_flow_bar=5., plift_bar=1., t_flow_k=300.)
+    two("create_circ_pump_const_mass_flow", "return_junction", "flow_junction", "in_service", p_flow_bar=5., mdot_flow_kg_per_s=1., t_flow_k=300.)
+    ops.append(["create_ext_grid", {"junction": 0, "p_bar": 5.0, "t_k": 293.15, "index": 0}])
+    ops.append(["create_ext_grid", {"junction": 2, "p_bar": 5.0, "t_k": 293.15, "index": 1, "in_service": False}])
+    return {"fluid": "water", "ops": ops}
+
+
 def run(ctx):
     ctx.extra["rule"] = ("nets from harness/gen.py + c17_gen.augment (pi valves, circulation-pump loop, remote pressure "
                          "control, t ext grid), dyadic pipe lengths; random include_/respect_status_/nogo/multi keyword "
@@ -482,7 +528,7 @@ def run(ctx):
         ctx.broken("translator", "create_nxgraph keyword list", repr(e))
         return
     ctx.extra["ignored_keywords_today"] = runner.ignored
-    n_graph, n_dist, n_solver = (120, 60, 60) if ctx.quick else (2500, 1200, 600)
+    n_graph, n_dist, n_solver = (120, 60, 60) if ctx.quick else (2000, 1000, 500)
     try:
         # the witnesses of the _refuted theorems first
         runner.graph_case(WITNESS, {})
@@ -492,6 +538,14 @@ def run(ctx):
         runner.graph_case(wnv, {})
         runner.solver_case(wnv)
         runner.solver_case(WITNESS_T)
+        zoo = zoo_spec()
+        runner.graph_case(zoo, {})
+        runner.graph_case(zoo, {"multi": False})
+        for k in KW.values():
+            runner.graph_case(zoo, {"include_" + k: False})
+            runner.graph_case(zoo, {"respect_status_" + k: False})
+        runner.graph_case(zoo, {"respect_status_branches_all": False})
+        runner.graph_case(zoo, {"respect_status_junctions": False})
         runner.graph_case(WITNESS_GAS, {"include_compressors": False})
         runner.graph_case(WITNESS_GAS, {"respect_status_compressors": False})
         for _ in range(n_graph):
@@ -517,7 +571,7 @@ def replay(ctx, path):
     if rp.get("kind") == "solver":
         runner.solver_case(rp["spec"])
     elif rp.get("kind") == "distance":
-        runner.distance_case(rp["spec"], random.Random(0))
+        runner.distance_case(rp["spec"], random.Random(0), fixed=(rp.get("kwargs", {}), rp["fn"], rp["sources"]))
         run_correspondence(ctx, runner)
     else:
         runner.graph_case(rp["spec"], rp.get("kwargs", {}))
